@@ -52,6 +52,13 @@ probe_ty!(M2, 2, 3);
 probe_ty!(M3, 3, 64);
 probe_ty!(M4, 4, 1);
 probe_ty!(M5, 5, 24);
+probe_ty!(M6, 6, 8);
+probe_ty!(M7, 7, 0);
+probe_ty!(M8, 8, 40);
+probe_ty!(M9, 9, 2);
+probe_ty!(M10, 10, 128);
+probe_ty!(M11, 11, 5);
+pub const NM: usize = 12;
 
 /// a resource whose CastFrom impl returns a different address (the address of a field that is itself a valid Probe)
 pub struct Bad {
@@ -144,10 +151,13 @@ impl MCase {
 }
 
 pub fn generate(rng: &mut Rng) -> MCase {
-    let n = 3 + rng.below(12);
+    // a third of the histories draw from all twelve types and are long enough to register most of them (tables that outgrow
+    // whatever small-table representation an implementation may use)
+    let wide = rng.chance(33);
+    let n = if wide { 12 + rng.below(24) } else { 3 + rng.below(12) };
     let mut ops = vec![];
     for _ in 0..n {
-        let i = rng.below(6) as u8;
+        let i = rng.below(if wide { NM } else { 6 }) as u8;
         ops.push(match rng.below(14) {
             0 | 1 | 2 | 3 => MOp::Register(i),
             4 | 5 | 6 => MOp::Insert(i),
@@ -165,13 +175,19 @@ pub fn generate(rng: &mut Rng) -> MCase {
 
 macro_rules! by_m {
     ($i:expr, $T:ident => $e:expr) => {
-        match $i % 6 {
+        match $i % 12 {
             0 => { type $T = M0; $e }
             1 => { type $T = M1; $e }
             2 => { type $T = M2; $e }
             3 => { type $T = M3; $e }
             4 => { type $T = M4; $e }
-            _ => { type $T = M5; $e }
+            5 => { type $T = M5; $e }
+            6 => { type $T = M6; $e }
+            7 => { type $T = M7; $e }
+            8 => { type $T = M8; $e }
+            9 => { type $T = M9; $e }
+            10 => { type $T = M10; $e }
+            _ => { type $T = M11; $e }
         }
     };
 }
@@ -184,8 +200,8 @@ pub fn run(case: &MCase) -> Option<(&'static str, String)> {
     let mut table: MetaTable<dyn Probe> = MetaTable::new();
     let mut world = World::empty();
     let mut order: Vec<u8> = vec![]; // first-registration order
-    let mut present = [false; 6];
-    let mut counts = [0u64; 6];
+    let mut present = [false; NM];
+    let mut counts = [0u64; NM];
     for (k, op) in case.ops.iter().enumerate() {
         let what = format!("operation {} ({:?})", k, op);
         let expected: Vec<u8> = order.iter().copied().filter(|i| present[*i as usize]).collect();
@@ -207,7 +223,7 @@ pub fn run(case: &MCase) -> Option<(&'static str, String)> {
             }
             MOp::Check => {
                 // get / get_mut on every present resource
-                for i in 0..6u8 {
+                for i in 0..NM as u8 {
                     if !present[i as usize] {
                         continue;
                     }
@@ -272,7 +288,7 @@ pub fn run(case: &MCase) -> Option<(&'static str, String)> {
                         }
                     }
                 }
-                for i in 0..6u8 {
+                for i in 0..NM as u8 {
                     if present[i as usize] {
                         let c = by_m!(i, T => world.fetch::<T>().n);
                         if c != counts[i as usize] {
